@@ -58,7 +58,7 @@ const LINES: [&str; 13] = [
     "++ b/f",                       // 12 becomes `+++ b/f` when added
 ];
 const FULL: &[u8] = &[0, 1, 2, 3, 4, 5, 6, 7, 8, 9, 10, 11, 12];
-const A7: &[u8] = &[0, 1, 2, 5, 9, 10, 11];
+const A9: &[u8] = &[0, 1, 2, 3, 5, 8, 9, 10, 11];
 const A6: &[u8] = &[0, 1, 2, 5, 10, 11];
 const A4: &[u8] = &[0, 1, 10, 11];
 const A2: &[u8] = &[0, 3];
@@ -198,7 +198,7 @@ fn families(thorough: bool) -> Vec<Family> {
     if !thorough {
         vec![
             Family::new("M2", 1, &["f"], FULL, 2, &[BLOB], 1, &[3, 0], &[Review]),
-            Family::new("M3", 2, &["f"], A7, 3, &[BLOB], 1, &[3, 0], &[Review]),
+            Family::new("M3", 2, &["f"], A9, 3, &[BLOB], 1, &[3, 0], &[Review]),
             Family::new("H6", 3, &["f"], A2, 6, &[BLOB], 1, &[0, 1], &[Review]),
             Family::new("T1", 4, &["f", "g", "a b"], A6, 1, &[BLOB], 2, &[3], &all),
             Family::new("X", 5, &["f", "g"], &[0], 2, &[BLOB, EXEC], 2, &[3], &all),
@@ -245,6 +245,8 @@ struct World {
 
 thread_local! {
     static WORLD: RefCell<Option<World>> = const { RefCell::new(None) };
+    /// Per worker and fingerprint: the costs of the witnesses kept so far (mirrors `Violations`).
+    static BEST: RefCell<std::collections::HashMap<String, Vec<u64>>> = RefCell::new(Default::default());
 }
 
 fn new_world() -> World {
@@ -479,29 +481,60 @@ fn eval_item(repo: &git2::Repository, old_oid: git2::Oid, new_oid: git2::Oid, co
     let mut results: Vec<&'static str> = vec![];
     let mut seen: Vec<String> = vec![];
 
-    let witness = |encoded: Option<&str>| {
-        let (o, n) = (old(), new());
-        // smaller = better witness: few short files, non-empty plain-mode files, the review path
-        let file_cost = |f: &FileC| 2 + f.lines.len() as u64 + f.name.len() as u64 + if f.lines.is_empty() { 3 } else { 0 } + if f.mode != BLOB { 2 } else { 0 };
-        let cost: u64 = o.iter().chain(n.iter()).map(file_cost).sum::<u64>() * 8 + if find == Find::Review { 0 } else { 4 } + context.min(3) as u64;
-        (json!({"old": o, "new": n, "context": context, "find": find.name(), "encoded": encoded, "origin": origin}), cost)
+    // The resolved trees and the witness cost are computed once per violating item; the witness
+    // document itself only when this item can still become one of the (three) cheapest witnesses
+    // this worker has seen for the fingerprint. Every instance is counted either way.
+    let resolved: std::cell::OnceCell<(Vec<FileC>, Vec<FileC>, u64)> = std::cell::OnceCell::new();
+    let resolve = || {
+        resolved.get_or_init(|| {
+            let (o, n) = (old(), new());
+            // smaller = better witness: few short files, non-empty plain-mode files, the review path
+            let file_cost = |f: &FileC| 2 + f.lines.len() as u64 + f.name.len() as u64 + if f.lines.is_empty() { 3 } else { 0 } + if f.mode != BLOB { 2 } else { 0 };
+            let cost: u64 = o.iter().chain(n.iter()).map(file_cost).sum::<u64>() * 8 + if find == Find::Review { 0 } else { 4 } + context.min(3) as u64;
+            (o, n, cost)
+        })
     };
     let mut push = |vs: &mut Vec<Violation>, fp: String, what: String, encoded: Option<&str>| {
         if seen.contains(&fp) {
             return;
         }
         seen.push(fp.clone());
-        let (w, cost) = witness(encoded);
-        vs.push(Violation::new(fp, what, w).cost(cost));
+        let (o, n, cost) = resolve();
+        let candidate = BEST.with(|b| {
+            let mut b = b.borrow_mut();
+            let e = b.entry(fp.clone()).or_default();
+            if e.len() < 3 {
+                e.push(*cost);
+                return true;
+            }
+            let (imax, max) = e.iter().copied().enumerate().max_by_key(|(_, c)| *c).unwrap();
+            if *cost < max {
+                e[imax] = *cost;
+                true
+            } else {
+                false
+            }
+        });
+        if candidate {
+            let w = json!({"old": o, "new": n, "context": context, "find": find.name(), "encoded": encoded, "origin": origin});
+            vs.push(Violation::new(fp, what, w).cost(*cost));
+        } else {
+            vs.push(Violation::new(fp, what, Value::Null).cost(u64::MAX));
+        }
     };
 
     // Which single files reproduce a whole-diff failure on their own?
-    let culprits = |pred: &dyn Fn(&FileDiff) -> bool| -> String {
-        let mut k: Vec<&'static str> = orig.files().filter(|f| pred(f)).map(kind).collect();
+    let culprits = |pred: &dyn Fn(&FileDiff) -> bool, with_name: bool| -> String {
+        let bad: Vec<&FileDiff> = orig.files().filter(|f| pred(f)).collect();
+        let mut k: Vec<&'static str> = bad.iter().map(|f| kind(f)).collect();
         k.sort();
         k.dedup();
+        let blank = |p: &std::path::Path| p.to_string_lossy().contains(' ');
+        let name = if bad.iter().any(|f| blank(paths(f).1) || paths(f).0.is_some_and(blank)) { "space-in-name" } else { "plain-name" };
         if k.is_empty() {
             "only-in-combination".to_string()
+        } else if with_name {
+            format!("{}/{name}", k.join("+"))
         } else {
             k.join("+")
         }
@@ -510,29 +543,35 @@ fn eval_item(repo: &git2::Repository, old_oid: git2::Oid, new_oid: git2::Oid, co
     // ---- diff level ----------------------------------------------------------------------
     match panics::catch(|| orig.to_unified_string()) {
         Err(c) => {
-            let who = culprits(&|f| panics::catch(|| f.to_unified_string()).is_err());
+            let who = culprits(&|f| panics::catch(|| f.to_unified_string()).is_err(), false);
             push(&mut vs, format!("C30/panic@{}/{who}", c.site()), format!("encoding a diff with a {who} file panics: {} ({}:{})", c.message, c.file, c.line), None);
             results.push("encode-panic");
         }
         Ok(Err(e)) => {
-            let who = culprits(&|f| matches!(panics::catch(|| f.to_unified_string()), Ok(Err(_))));
+            let who = culprits(&|f| matches!(panics::catch(|| f.to_unified_string()), Ok(Err(_))), false);
             push(&mut vs, format!("C30/encode-error/{who}"), format!("encoding a diff with a {who} file fails: {e}"), None);
             results.push("encode-error");
         }
         Ok(Ok(text)) => match panics::catch(|| Diff::parse(&text)) {
             Err(c) => {
-                let who = culprits(&|f| match f.to_unified_string() {
-                    Ok(t) => panics::catch(|| Diff::parse(&t)).is_err(),
-                    Err(_) => false,
-                });
+                let who = culprits(
+                    &|f| match f.to_unified_string() {
+                        Ok(t) => panics::catch(|| Diff::parse(&t)).is_err(),
+                        Err(_) => false,
+                    },
+                    false,
+                );
                 push(&mut vs, format!("C30/panic@{}/{who}", c.site()), format!("decoding the encoded diff ({who} file) panics: {} ({}:{})", c.message, c.file, c.line), Some(&text));
                 results.push("decode-panic");
             }
             Ok(Err(e)) => {
-                let who = culprits(&|f| match f.to_unified_string() {
-                    Ok(t) => matches!(panics::catch(|| Diff::parse(&t)), Ok(Err(_))),
-                    Err(_) => false,
-                });
+                let who = culprits(
+                    &|f| match f.to_unified_string() {
+                        Ok(t) => matches!(panics::catch(|| Diff::parse(&t)), Ok(Err(_))),
+                        Err(_) => false,
+                    },
+                    true,
+                );
                 push(&mut vs, format!("C30/decode-error/{who}"), format!("the encoded diff ({who} file) does not decode: {e}"), Some(&text));
                 results.push("decode-error");
             }
@@ -735,6 +774,13 @@ fn main() {
         json!({"hunks_whose_decoded_old_new_ranges_differ_from_git (not part of the statement, not a violation)": RANGE_NOTES.load(Ordering::Relaxed)}),
     );
     let violations = std::mem::take(&mut st.violations);
+    // Instances that could not improve on a worker's kept witnesses were recorded without a
+    // witness document; none of them may have been kept.
+    for (fp, (ws, _)) in &violations.by_fp {
+        if ws.iter().any(|w| w.witness.is_null()) {
+            mcx::report::machinery(&format!("witness-less instance kept for {fp}"));
+        }
+    }
     ctx.finish(
         cov,
         &[
